@@ -49,6 +49,9 @@ var c07Vars = map[string]c07Var{
 	"u16": {"int", uint16(60000)}, "u32": {"int", uint32(3)}, "u64": {"int", uint64(7)},
 	// neighbours beyond 2^53 (float64 cannot tell them apart) and the int64 extremes
 	"h0": {"int", int64(9007199254740992)}, "h1": {"int", int64(9007199254740993)}, "imax": {"int", int64(9223372036854775807)}, "imin": {"int", int64(-9223372036854775808)},
+	// an unsigned value beyond the range of the signed types: only printed and concatenated (its
+	// arithmetic is not part of the fragment)
+	"ubig": {"ubig", uint64(1)<<63 + 5},
 	// a divisor that is tiny but not zero
 	"tiny": {"float", 5e-10}, "ntiny": {"float", -2.5e-12},
 	"f": {"float", 2.5}, "fz": {"float", 0.0}, "f32": {"fnoeq", float32(0.5)},
@@ -105,6 +108,9 @@ func binType(op string, l, r *Ex) string {
 		if (a == "str" && (b == "str" || isNumT(b))) || (b == "str" && isNumT(a)) {
 			return "str"
 		}
+		if (a == "str" && b == "ubig") || (a == "ubig" && b == "str") {
+			return "str"
+		}
 	case "==", "!=":
 		if a == b && (a == "int" || a == "float" || a == "str" || a == "bool") {
 			return "bool"
@@ -158,7 +164,7 @@ type c07V struct {
 	F float64
 	S string
 	B bool
-	N int // list length (truthiness)
+	N int    // list length (truthiness)
 	L []c07V // items of an array literal
 }
 
@@ -245,6 +251,9 @@ func c07Eval(e *Ex) (c07V, error) {
 		case uint32:
 			return c07V{T: "int", I: int64(x)}, nil
 		case uint64:
+			if c07Vars[e.Name].T == "ubig" {
+				return c07V{T: "str", S: strconv.FormatUint(x, 10)}, nil // (its decimal text is all that is used)
+			}
 			return c07V{T: "int", I: int64(x)}, nil
 		case int64:
 			return c07V{T: "int", I: x}, nil
@@ -749,6 +758,8 @@ func genLeaf(t *rapid.T, want string) *Ex {
 		return &Ex{Op: "var", T: "float", Name: pick(t, "fv", []string{"f", "fz", "f", "fz", "tiny", "ntiny"})}
 	case "fnoeq":
 		return &Ex{Op: "var", T: "fnoeq", Name: "f32"}
+	case "ubig":
+		return &Ex{Op: "var", T: "ubig", Name: "ubig"}
 	case "str":
 		if drawBool(t, "lit") {
 			// (a string literal is an operand whatever it spells: signs, operators, keywords)
@@ -798,7 +809,7 @@ func genEx(t *rapid.T, want string, depth int) *Ex {
 		want = pick(t, "numT", []string{"int", "int", "float", "fnoeq"})
 	}
 	leafOK := want != "truth"
-	if leafOK && (depth <= 0 || drawInt(t, 0, 3, "leaf") == 0) || want == "ilist" || want == "slist" || want == "fnoeq" {
+	if leafOK && (depth <= 0 || drawInt(t, 0, 3, "leaf") == 0) || want == "ilist" || want == "slist" || want == "fnoeq" || want == "ubig" {
 		return genLeaf(t, want)
 	}
 	var e *Ex
@@ -854,7 +865,7 @@ func genEx(t *rapid.T, want string, depth int) *Ex {
 		}
 		e = mk(op, l, r)
 	case "str":
-		l, r := genEx(t, "str", d), genEx(t, pick(t, "cat", []string{"str", "int", "float", "fnoeq"}), d)
+		l, r := genEx(t, "str", d), genEx(t, pick(t, "cat", []string{"str", "int", "float", "fnoeq", "ubig"}), d)
 		if drawBool(t, "swap") && r.T != "str" {
 			l, r = r, l
 		}
@@ -915,7 +926,7 @@ var _ = register(&propSpec{
 	ID:   "C07.expr",
 	Rule: "well-typed expression trees (int/float/string/bool, context variables of every Go int/uint width and float32, integer literals with and without leading zeros (decimal either way), string literals that spell signs, operators and keywords, list membership (typed lists, a list of integers of mixed Go kinds, in-template array literals whose items are expressions of their own), key membership in string- and int-keyed maps) of depth <= 7, printed with minimal parentheses per the stated precedence/associativity, random operator spellings (and/&&, or/||, !=/<>, not/!) and spacing, rendered as {{ e }} and {% if e %}; compared with an independent evaluator of the tree (wrap-around int64, truncated division, float64 when a float is involved, concatenation, short-circuit, division/modulo by zero = execution error). Non-trivial: operators from >= 2 precedence levels or a same-level chain of >= 3 operands AND at least one operator printed without parentheses; distinct by printed source.",
 	Gen: func(t *rapid.T) any {
-		root := pick(t, "rootT", []string{"int", "float", "str", "bool", "bool", "truth"})
+		root := pick(t, "rootT", []string{"int", "float", "str", "bool", "bool", "truth", "str", "ubig"})
 		e := genEx(t, root, drawInt(t, 1, 7, "depth"))
 		n := drawInt(t, 0, 12, "nsp")
 		sp := make([]int, n)
